@@ -70,7 +70,9 @@ CHECKS["C04"] = dict(level="model_checking", engine="kani+mirvc",
     technique="bounded model checking (Kani/CBMC) of apply+rollback; SMT-decided VC over the drivers' MIR for the undo direction", ref="DESIGN.md §2 C04", note=KANI_NOTE + " " + MIR_NOTE)
 CHECKS["C07"] = kani_check("FilenameDistributor<u8>, one inductive step from an ARBITRARY valid union-find state instead of call histories: the parent array is symbolic under the representation invariant cc[i] <= i "
     "(every such forest is reachable by some add history), N <= 5 names (7 in the thorough tier); build(): every name goes to its representative's worker, ids < thread_count for every thread count 1..16; add(): for every call (both names, "
-    "rename or not, new names in order of appearance) the invariant is kept and exactly the two components of the call are merged. Plus concrete call prefixes with a symbolic last call. std HashMap is an association list on the overlay; replay uses the real HashMap.", "DESIGN.md §2 C07, §11")
+    "rename or not, new names in order of appearance) the invariant is kept and exactly the two components of the call are merged. Plus concrete call prefixes with a symbolic last call. std HashMap is an association list on the overlay; replay uses the real HashMap. "
+    "Engine B: in parallel::apply_patches every file patch taken from a patch is handed to FilenameDistributor::add before the next one is taken and before build() (candidates replayed by comparing 2..4 workers with one on generated series).", "DESIGN.md §2 C07, §11",
+    engine="kani+mirvc", technique="bounded model checking (Kani/CBMC) of the union-find from an arbitrary valid state; SMT-decided ordering VC over the driver's MIR")
 
 CHECKS["C11"] = kani_check("Every sub-parser on fully symbolic buffers (<= 12 bytes; keyword lines with symbolic tails): no panic / overflow / out-of-bounds / unwrap-on-None, termination inside the unwinding bound, remainder a strict suffix; "
     "numeric header fields: every 1..21-digit string gives its value or an error, extreme values (2^63, 2^64-1, 10^12, ...) through parse_hunk with capacity <= input length; placement terminates within a file-size bound for every stated line up to 2^62. Engine B: build_filepatch marks a file patch as a rename only when both names are real, "
